@@ -2,7 +2,7 @@
    pointer-level reading of well-formedness (HeapOK). *)
 From Coq Require Import List ZArith Bool Arith Lia Permutation.
 From NT Require Import Sx Rose ListFacts RoseFacts Surgery SurgeryFacts Machine WF MachineFacts PreserveSteps PreserveOps
-  PreserveKeepClones Invariant Heap HeapProofs HeapRemove HeapMore HeapMove.
+  PreserveKeepClones Invariant Heap HeapProofs HeapRemove HeapMore HeapMove HeapShort.
 Import ListNotations.
 
 (* operations whose simulation proof is closed *)
@@ -16,6 +16,8 @@ Definition covered_heap (o : op) : bool :=
   | OSort _ _ _ _ deep => negb deep
   | OMeta _ _ _ => true
   | ONewTree _ _ => true
+  | ODel _ _ => true
+  | OShort _ _ _ _ _ _ => true
   | _ => false
   end.
 
@@ -26,6 +28,7 @@ Theorem sim_step hw w o : covered_heap o = true -> WFw w -> RepW hw w -> Sim (h_
 Proof.
   intros C W RW. destruct o; cbn [covered_heap] in C; try discriminate C; cbn [h_step step].
   - now apply sim_op_add.
+  - now apply sim_op_shortcut.
   - now apply sim_op_move.
   - destruct keep; [discriminate C|]. now apply sim_op_remove_plain.
   - now apply sim_op_remove_children.
@@ -34,6 +37,7 @@ Proof.
   - split; [cbn [fst]; f_equal; f_equal; destruct RW as [_ F]; now rewrite (Forall2_length' _ _ _ F)|].
     cbn [snd]. destruct RW as [E F]. constructor; [exact E|]. cbn. apply Forall2_app; [assumption|]. constructor; [apply Rep_empty|constructor].
   - unfold op_clear. now apply sim_op_remove_children.
+  - now apply sim_op_del.
 Qed.
 
 Theorem sim_run ops : forall hw w, forallb covered_heap ops = true -> WFw w -> RepW hw w -> RepW (h_run ops hw) (run ops w).
